@@ -16,7 +16,11 @@
         A2     A's input built again (an equal-token collection)
         Xa Xb Xd Xf   fillers of the four kinds with unrelated values
    (all sequences of length 2..MaxPlan with at least one of A/B/A2), so that
-   collection kinds are interleaved in every possible way.                   *)
+   collection kinds are interleaved in every possible way.
+
+   Sibling mode (SInit/SNext): the sibling-pair cases (see SibOps at the end of
+   the module); the design invariant SameNameIsWrong (design mode) shows why the
+   results property forces different names on siblings with different values.                   *)
 EXTENDS KeySpace, Chunks, Json
 
 CONSTANTS NKeys, NVals, MaxTuple, MaxPlan
